@@ -357,7 +357,8 @@ theorem insertDefTableOpts_unfold (ed : Editor α) (pos : Int) (defs : List (Lis
         if !full.isEmpty then
           ed.insert cx pos
             (Block.mk full (o.withDefaults cx).lineSep (!(o.withDefaults cx).noTrailing)).join
-        else pure ed) := rfl
+        else pure ed) := by
+  rw [Editor.insertDefTableOpts_eq_core]; rfl
 
 end defs
 
@@ -719,7 +720,8 @@ theorem makeTable_bridge_stable (data : List (List (List (List Int))))
     apply foldl_congr_mem
     intro m row hrow
     rw [getD_map_flatten, gLen_A_flatten (getD_stable (hdata row hrow) col)]
-  unfold makeTable
+  simp only [makeTable_eq_core]
+  unfold makeTableCore
   simp only [List.isEmpty_map, List.foldl_map, List.length_map, hcw, BridgeAlign.rel_gLen hc.horz]
   refine ite_map_eq _ _ _ _ _ _ rfl (ite_map_eq _ _ _ _ _ _ rfl (ite_map_eq _ _ _ _ _ _ ?_ ?_))
   · exact buildTable_bridge data hdata _ _ header border hup _ _ hc
@@ -766,7 +768,8 @@ theorem mem_makeTable {α : Type} [DecidableEq α] (cx : Ctx α) (data : List (L
     (width : Int) (header border : Bool) (cs : List α) (line : List α)
     (h : line ∈ makeTable cx data width header border cs) :
     ∃ cws w, line ∈ buildTable cx data cws w header border (parseTableCharSet cx cs) := by
-  unfold makeTable at h
+  simp only [makeTable_eq_core] at h
+  unfold makeTableCore at h
   rcases mem_ite h with h | h
   · cases h
   · simp only [] at h
